@@ -246,9 +246,17 @@ class PythonTemplater(RawTemplater):
             template variable containing "." into a dictionary lookup.
                 Example:  {foo.bar} => {sqlfluff[foo.bar]}
             """
+
             # Hack to allow template variables with dot notation (e.g. foo.bar)
+            def _dot_notation_hack(match: "re.Match[str]") -> str:
+                if match.group(1) is None:
+                    # An escaped brace ("{{" or "}}"): leave it alone, so that
+                    # we stay aligned with how python itself reads the string.
+                    return match.group(0)
+                return "{sqlfluff[%s]%s}" % (match.group(1), match.group(2) or "")
+
             raw_str_with_dot_notation_hack = re.sub(
-                r"{([^:}]*\.[^:}]*)(:\S*)?}", r"{sqlfluff[\1]\2}", raw_str
+                r"{{|}}|{([^:{}]*\.[^:{}]*)(:\S*?)?}", _dot_notation_hack, raw_str
             )
             templater_logger.debug(
                 "    Raw String with Dot Notation Hack: %r",
